@@ -224,6 +224,21 @@ func runC19(c *Ctx) {
 		}
 		gb := p.Fn("pkg/blockchain.(*DataAccess).GetBlocksBetweenHeight")
 		if gb != nil {
+			// one block per height or an error: what is returned with a nil error is either a
+			// slice made with to-from+1 places, or built by appends none of which an iteration
+			// of its loop can skip (a height that cannot be read is an error, never a gap —
+			// the requester applies the blocks one after the other)
+			gf := factsOf(gb)
+			nRet := 0
+			for _, r := range Returns(gb) {
+				if classifyReturn(gf, r) != RetNil {
+					continue
+				}
+				nRet++
+				ok, why := completeRange(gb, gf, r.Results[0])
+				c.Require("C19.R3 served-segment", "GetBlocksBetweenHeight: one block per height", p.InstrPos(r), "the slice returned on success has a block for every height from..to", ok, why)
+			}
+			c.MinInstances("C19.R3 served-segment returns", nRet, 1)
 			c.Require("C19.R3 served-segment", "GetBlocksBetweenHeight: ascending", p.Pos(gb.Pos()), "blocks are returned in ascending height order", len(CallsIn(gb, "blockchain.SortBlockByHeightAsc")) == 1, "")
 		}
 	}
@@ -471,4 +486,79 @@ func checkRunningMax(c *Ctx, fn *ssa.Function, isCand func(*Term) bool, what str
 var c19UnsignedTable = []unsignedRow{
 	{fn: "pkg/consensus/sync.(*fastSyncer).Sync", frag: "(*blockchain.Chain).LastBlock(p0.chain).Header.Height − ", reason: "the common block header is looked up in the node's own chain by getCommonBlock (GetBlockHeader of the returned ID), so its height is at most the tip's"},
 	{fn: "pkg/consensus/sync.(*fastSyncer).Sync", frag: "(p1.Block.Header.Height − ", reason: "a peer tip below the common block it named wraps the difference above two rounds, which is the abort branch: the safe outcome"},
+}
+
+// completeRange: v is make([]T, p2-p1+1) (filled by index), or grows by appends that every
+// iteration of the enclosing loop executes.
+func completeRange(fn *ssa.Function, ff *FuncFacts, v ssa.Value) (bool, string) {
+	seen := map[ssa.Value]bool{}
+	var appends []*ssa.Call
+	var bases []ssa.Value
+	var walk func(x ssa.Value)
+	walk = func(x ssa.Value) {
+		x = stripConv(x)
+		if seen[x] {
+			return
+		}
+		seen[x] = true
+		switch y := x.(type) {
+		case *ssa.Phi:
+			for _, e := range y.Edges {
+				walk(e)
+			}
+		case *ssa.Call:
+			if CalleeName(y.Common()) == "builtin:append" {
+				appends = append(appends, y)
+				walk(y.Common().Args[0])
+				return
+			}
+			bases = append(bases, x)
+		case *ssa.UnOp:
+			if al, ok := y.X.(*ssa.Alloc); ok {
+				if sv := uniqueStore(al); sv != nil {
+					walk(sv)
+					return
+				}
+			}
+			bases = append(bases, x)
+		default:
+			bases = append(bases, x)
+		}
+	}
+	walk(v)
+	for _, b := range bases {
+		mk, ok := b.(*ssa.MakeSlice)
+		if !ok {
+			if cst, isC := b.(*ssa.Const); isC && cst.Value == nil && len(appends) > 0 {
+				continue // nil slice grown by appends
+			}
+			return false, "returned slice has an origin that is neither make() nor append: " + ff.Term(b).String()
+		}
+		lt := ff.Term(mk.Len).String()
+		if len(appends) == 0 {
+			if lt != "((p2 - p1) + 1)" {
+				return false, "made with length " + lt + ", not to-from+1"
+			}
+		} else if lt != "0" {
+			return false, "made with length " + lt + " and then appended to"
+		}
+	}
+	loops := naturalLoops(fn)
+	for _, ap := range appends {
+		blk := ap.Block()
+		for _, li := range loops {
+			if !li.Blocks[blk] {
+				continue
+			}
+			for _, l := range li.Latch {
+				if !(blk == l || blk.Dominates(l)) {
+					return false, fmt.Sprintf("an iteration of the loop at b%d can reach its end without the append at b%d: a height is skipped silently", li.Header.Index, blk.Index)
+				}
+			}
+		}
+	}
+	if len(appends) == 0 && len(bases) == 0 {
+		return false, "nothing returned"
+	}
+	return true, fmt.Sprintf("%d make, %d append sites", len(bases), len(appends))
 }
